@@ -186,4 +186,15 @@ Proof.
   - intros [[pn kp] p] Hin. rewrite Forall_forall in Hs. destruct (Hs _ Hin) as (hdr & H). eapply honest; eauto.
   - intros Hw. specialize (Hn Hw). split; [exact Hn|]. unfold pns in Hn. eapply NoDup_map_inv; eauto.
 Qed.
+
+(** The form the at-most-once statement takes once the received-packet history never forgets a number it
+    accepted (C07's repair fixes/C07-trimmed-history-counts-as-received.patch: trimming raises deletedBelow, so
+    no watermark is ever set): with no watermark in the application-data space every packet is processed at
+    most once, unconditionally. *)
+Corollary processed_once_no_watermark evs :
+  let s := nrun nst0 evs in
+  n_W s 2%nat = None -> NoDup (pns s) /\ NoDup (n_procs s).
+Proof.
+  cbn zeta. intros HW. apply (processed_from_sent evs). intros q _ Hle. rewrite HW in Hle. exact Hle.
+Qed.
 End Net.
